@@ -1,10 +1,9 @@
-/- driver for C05 : to be filled in (stub keeps Main.lean compiling) -/
-import MysticVerif.Basic.Proto
+/- driver for C05: the shared solver model S (Drv/SolverDrv.lean) -/
+import MysticVerif.Drv.SolverDrv
 
 namespace MysticVerif.DrvC05
 open MysticVerif
 
-def handle : Handler
-  | _ => "bad-op"
+def handle : Handler := SolverDrv.handle
 
 end MysticVerif.DrvC05
